@@ -1,7 +1,7 @@
 (** C10 — non-vacuity: a concrete schema satisfying the guards, with members and non-members of
     the emitted aliases on both sides. *)
 From V Require Import Base.Util Gql.Ast Writer.Wop Ts.TsType Ts.TsDen
-  C10.Model C10.Spec C10.DenLemmas C10.Proofs C10.Proofs2 C10.NameProofs C10.ResolverProofs.
+  C10.Model C10.Spec C10.DenLemmas C10.Proofs C10.Proofs2 C10.NameProofs C10.ResolverProofs C10.ResolverArgs C10.ResolverDen.
 
 Definition ex_ty (n : String.string) : ty := TNamed (id0 n).
 Arguments ex_ty n%string_scope.
@@ -91,3 +91,30 @@ Example ex_resolver_scope :
   exists d, resolver_structure default_ropts 1 ex_doc = Ok d /\ resolver_scope_ok default_ropts d = true
             /\ forallb (fun td => negb (mem (tname td) (resolver_reserved default_ropts))) (typedefs ex_doc) = true.
 Proof. eexists. split; [vm_compute; reflexivity|]. split; vm_compute; reflexivity. Qed.
+
+(** resolvers, denotationally: a parent/returned object of type [string] (the renamed object type)
+    has exactly the fields and no [__typename]; the Result type [[string!]!] is a list of them *)
+Definition ex_res_ms : list (option member) := match namespace_members ex_opts ex_doc ResOut with Ok ms => ms | _ => [] end.
+Definition ex_res_aliases : list (str * tstype) :=
+  match resolver_structure default_ropts 0 ex_doc with Ok d => module_aliases d | _ => [] end.
+Definition ex_parent : val := VObj [(s "id", VAtom (s "string | number")); (s "when", VNull); (s "friends", VList [])].
+Example ex_resolver_parent :
+  mt ex_res_ms ex_res_aliases 40 (TVar (s "string") pos0) ex_parent = Some true
+  /\ resolver_ref ex_opts ex_doc (s "string") ex_parent = true
+  /\ mt ex_res_ms ex_res_aliases 40 (TVar (s "string") pos0)
+        (VObj ((s "__typename", VStr (s "string")) :: match ex_parent with VObj l => l | _ => [] end)) = Some false
+  /\ mt ex_res_ms ex_res_aliases 40 (TVar (s "Node") pos0) ex_parent = Some true.
+Proof. vm_compute. repeat split; reflexivity. Qed.
+Example ex_resolver_result :
+  let ty := TNonNull (TList pos0 (TNonNull (ex_ty "string"))) in
+  result_wf ex_doc ty = true
+  /\ mt ex_res_ms ex_res_aliases 40 (get_ts_type_of_type tvar_id ty) (VList [ex_parent]) = Some true
+  /\ mt ex_res_ms ex_res_aliases 40 (get_ts_type_of_type tvar_id ty) (VList [VNull]) = Some false.
+Proof. vm_compute. repeat split; reflexivity. Qed.
+Example ex_resolver_args :
+  let args := [mkInputVal None pos0 (id0 "n") (TNonNull (ex_ty "Int")) None []; mkInputVal None pos0 (id0 "e") (ex_ty "E") None []] in
+  let ms := match namespace_members ex_opts ex_doc ResIn with Ok ms => ms | _ => [] end in
+  args_wf ex_doc args = true
+  /\ has_type_b (res_in_env ms) 40 (arguments_definition_to_ts default_ropts args) (VObj [(s "n", VNum); (s "e", VNull)]) = Some true
+  /\ has_type_b (res_in_env ms) 40 (arguments_definition_to_ts default_ropts args) (VObj [(s "n", VNum)]) = Some false.
+Proof. vm_compute. repeat split; reflexivity. Qed.
